@@ -11,6 +11,7 @@ import (
 	"google.golang.org/grpc/metadata"
 	"google.golang.org/grpc/status"
 	"google.golang.org/protobuf/types/known/emptypb"
+	"google.golang.org/protobuf/types/known/wrapperspb"
 
 	"github.com/jhump/grpctunnel/tunnelpb"
 )
@@ -98,8 +99,10 @@ type vInvocation struct {
 type vSvcImpl struct{ name string }
 
 type vHandlerLog struct {
-	calls  []vInvocation
-	result error
+	calls   []vInvocation
+	result  error
+	readOne bool // the streaming handler reads one request before returning
+	readErr error
 }
 
 func vHandlers(hl *vHandlerLog) grpchan.HandlerMap {
@@ -130,6 +133,9 @@ func vHandlers(hl *vHandlerLog) grpchan.HandlerMap {
 				}
 			}
 			hl.calls = append(hl.calls, inv)
+			if hl.readOne {
+				hl.readErr = st.RecvMsg(&wrapperspb.BytesValue{})
+			}
 			return hl.result
 		}
 		desc := &grpc.ServiceDesc{
